@@ -35,7 +35,7 @@ var c02Producers = []producer{
 	{"9223372036854775808", "number", false}, {"(-9223372036854775808)", "number", false}, {"(2 ** 63)", "number", false},
 	{"1" + strings.Repeat("0", 308), "number", false}, {"(2 ** 1024)", "number", false}, {"(-(2 ** 1024))", "number", false}, {"((2 ** 1024) - (2 ** 1024))", "number", false},
 	{"0.000001", "number", false}, {"123456.789", "number", false}, {"১২", "number", true},
-	{"(3 | 0)", "int", true}, {"(1 << 62)", "int", false}, {"((1 << 62) | 1)", "int", false}, {"(~0)", "int", false}, {"(1 << 63)", "int", false},
+	{"(3 | 0)", "int", true}, {"(1 << 62)", "int", false}, {"((1 << 62) | 1)", "int", false}, {"(~0)", "int", false}, {"(1 << 63)", "int", false}, {"(~(1 << 62))", "int", false}, {"(~9007199254740992)", "int", false},
 	{"\"\"", "string", false}, {"\"a\"", "string", false}, {"\"ab c\"", "string", false}, {"\"12\"", "string", false}, {"\"১২\"", "string", false}, {"\"1.5\"", "string", false}, {"(\"a\" + \"\")", "string", false},
 	{"[]", "array", false}, {"[1]", "array", false}, {"arr", "array", false},
 	{"{}", "object", false}, {"{a: 1}", "object", false}, {"obj", "object", false},
